@@ -252,6 +252,12 @@ class Session:
         per_class = {}
         for label, inst, params in insts:
             per_class.setdefault(inst.__class__.__name__, (label, inst, params))
+        # a user header that CARRIES TRE data (the overflow field is only rendered then): refused assignments to it must leave its bytes alone
+        try:
+            per_class['UserHeaderType(with TRE data)'] = ('user header with data', B.UserHeaderType(data=B.UnknownTRE('ABCDEF', b'x' * 20).to_bytes()), {})
+            battery = battery + [1000, '12345', -7]
+        except Exception:
+            pass
         seen = set()
 
         def nodes(obj, path, depth=0):
@@ -274,7 +280,7 @@ class Session:
                 if isinstance(obj, B.UserHeaderType):
                     attrs.append('OFL')
                 for fld in attrs:
-                    tag = f'{obj.__class__.__name__}.{fld}'
+                    tag = f'{obj.__class__.__name__}.{fld}' + ('+data' if cname.endswith('(with TRE data)') else '')
                     if tag in seen:
                         continue
                     seen.add(tag)
